@@ -2,11 +2,13 @@
 """Regenerate DESIGN.md section 20 (seeded changes and which checks catch them) from seeded/*/meta.json."""
 import glob, json, os, re
 ROOT = os.path.dirname(os.path.abspath(__file__))
-rows, caught, missed, pending = [], 0, 0, 0
+rows, caught, missed, pending, neutral = [], 0, 0, 0, 0
 for f in sorted(glob.glob(os.path.join(ROOT, "seeded", "C*", "meta.json"))):
     m = json.load(open(f))
     runs = m.get("detection_runs") or []
-    if not runs:
+    if m.get("neutralised"):
+        verdict, neutral = "no longer breaks the property: " + m["neutralised"], neutral + 1
+    elif not runs:
         verdict, pending = "not run yet", pending + 1
     elif runs[-1]["exit"] == 1:
         sig = (runs[-1]["signatures"] or ["?"])[0]
@@ -19,7 +21,7 @@ for f in sorted(glob.glob(os.path.join(ROOT, "seeded", "C*", "meta.json"))):
         verdict, missed = "**missed** (%s)" % (m.get("note") or "see below"), missed + 1
     rows.append("| %s | %s | %s | %s |" % (m["id"], m.get("files") or "", m["breaks"].replace("|", "/"), verdict))
 table = ["| id | where | what the change breaks | outcome of `./check <property> quick` |", "|---|---|---|---|"] + rows
-summary = "%d seeded changes: %d caught, %d missed, %d not run yet." % (len(rows), caught, missed, pending)
+summary = "%d seeded changes: %d caught, %d missed, %d neutralised by a later repair, %d not run yet." % (len(rows), caught, missed, neutral, pending)
 text = summary + "\n\n" + "\n".join(table) + "\n"
 p = os.path.join(ROOT, "DESIGN.md")
 s = open(p).read()
@@ -38,7 +40,7 @@ for l in log.split("\n"):
     if not msg.startswith("fix:"):
         continue
     e = byc.get(c[:7])
-    lines.append("* `%s` %s - %s%s" % (c, e["property"] if e else "?", msg[5:], " (replay: `%s`)" % e["replay"] if e and e.get("replay") else ""))
+    lines.append("* `%s` %s - %s%s" % (c, e["property"] if e else "-", msg[5:], " (replay: `%s`)" % e["replay"] if e and e.get("replay") else ""))
 fx = "%d repairs:\n\n" % len(lines) + "\n".join(lines) + "\n"
 s = open(p).read()
 a, b = "<!-- FIXES-BEGIN -->", "<!-- FIXES-END -->"
